@@ -372,6 +372,9 @@ func GenConfig(t *rapid.T, p CfgParams) Config {
 		comps = c2
 	}
 	k.Compression = rapid.SampledFrom(comps).Draw(t, "compression")
+	if k.Compression == "custom" {
+		k.FreshCompressor = rapid.Bool().Draw(t, "fresh-compressor")
+	}
 	k.Level = rapid.SampledFrom([]int{0, 0, 0, 1, 1, 1, 2, 3}).Draw(t, "level")
 	if p.SmallChunks {
 		k.ChunkSize = rapid.SampledFrom(smallChunkSizes).Draw(t, "chunksize")
